@@ -988,7 +988,9 @@ func (r *messageReader) Read(b []byte) (int, error) {
 				c.readMaskPos = maskBytes(c.readMaskKey, c.readMaskPos, b[:n])
 			}
 			c.readRemaining -= int64(n)
-			if c.readRemaining > 0 && c.readErr == io.EOF {
+			// The transport may return its last bytes with io.EOF, which is an end of
+			// message for the reader only when the final frame has been read completely.
+			if (c.readRemaining > 0 || !c.readFinal) && c.readErr == io.EOF {
 				c.readErr = errUnexpectedEOF
 			}
 			return n, c.readErr
